@@ -253,9 +253,22 @@ GRAPHS = {
         "    a.ignore_result()(x)\n    b.ignore_result().call_batch([{'x': x}, {'x': x + 1}])\n    r = c.force_local()(x + 5)\n"
         "    _trace.append(('exit',)); return r\n",
         ["a:2", "b:2", "b:3", "c:7"]),
+    # one callee invoked with arguments that Python treats as equal (1 == 1.0 == True) but that are distinct calls
+    "lookalike-arguments": (
+        "@m.memento_function\ndef a(x):\n    _trace.append(('enter', 'a', x)); _trace.append(('exit',)); return repr(x)\n"
+        "@m.memento_function\ndef root(x):\n    _trace.append(('enter', 'root', x))\n"
+        "    r = a(1) + a(True) + a(1.0) + ''.join(a.call_batch([{'x': 1.0}, {'x': 1}]))\n"
+        "    _trace.append(('exit',)); return r\n",
+        ["a:1", "a:True", "a:1.0"]),
 }
 GRAPH_NAMES = sorted(GRAPHS)
-ROOT_ARG = {"same-function-different-subgraphs": 5, "recursion": 2, "diamond": 2, "batch-fanout": 5, "modifier-subcalls": 2}
+ROOT_ARG = {"same-function-different-subgraphs": 5, "recursion": 2, "diamond": 2, "batch-fanout": 5, "modifier-subcalls": 2, "lookalike-arguments": 2}
+
+
+def _arg(text):
+    import ast
+
+    return ast.literal_eval(text)
 
 
 def _call_tree(events):
@@ -284,9 +297,9 @@ def _functions_below(node, known):
 @obligation(
     "C10.graphs",
     covers=("some-subcalls-memoized-before", "all-subcalls-memoized-before", "recursion", "diamond", "batch-fanout",
-            "same-function-different-subgraphs", "modifier-subcalls"),
+            "same-function-different-subgraphs", "modifier-subcalls", "lookalike-arguments"),
     split={"g": list(range(len(GRAPH_NAMES))), "store": [0, 1, 2]},
-    bounds="5 call graphs (one function called with two arguments whose sub-graphs differ; recursion reaching a helper "
+    bounds="6 call graphs (one callee invoked with 1, True and 1.0 - equal for Python, distinct calls -; one function called with two arguments whose sub-graphs differ; recursion reaching a helper "
            "only at the bottom; a diamond; a batch fan-out with repeated and distinct arguments; sub-calls made through ignore_result() "
            "- single and batch - and force_local() clones) x every subset of the (up to 4) distinct "
            "sub-calls memoized beforehand x root invoked singly or as a batch x 3 stores; oracle = the call tree recorded by the bodies",
@@ -327,17 +340,18 @@ def graphs(g: int, store: int, premem: int, root_batch: bool):
                           "recursion": [("root", {"x": 1})],
                           "diamond": [("a", {"x": 2}), ("b", {"x": 2})],
                           "batch-fanout": [("mid", {"x": 0}), ("mid", {"x": 1}), ("mid", {"x": 0})],
-                          "modifier-subcalls": [("a", {"x": 2}), ("b", {"x": 2}), ("b", {"x": 3}), ("c", {"x": 7})]}[name]
-            check("cold-invocations-are-exactly-the-direct-calls-in-order", [(a, b) for (a, b, _h) in cold[0]] == exp_direct, (cold[0], exp_direct))
+                          "modifier-subcalls": [("a", {"x": 2}), ("b", {"x": 2}), ("b", {"x": 3}), ("c", {"x": 7})],
+                          "lookalike-arguments": [("a", {"x": 1}), ("a", {"x": True}), ("a", {"x": 1.0}), ("a", {"x": 1.0}), ("a", {"x": 1})]}[name]
+            check("cold-invocations-are-exactly-the-direct-calls-in-order", repr([(a, b) for (a, b, _h) in cold[0]]) == repr(exp_direct), (cold[0], exp_direct))
             got_names = sorted(q.split(":")[-1].split("#")[0] for q in cold[2])
             check("cold-dependencies-are-exactly-the-functions-reached", got_names == sorted(exp_deps_names), (got_names, sorted(exp_deps_names)))
             # inner records too
             for sc_ in subcalls:
                 fn_name, x = sc_.split(":")
-                mem = getattr(prog, fn_name).memento(int(x))
+                mem = getattr(prog, fn_name).memento(_arg(x))
                 check("inner-memento-exists", mem is not None, sc_)
                 inner = sorted(q.split(":")[-1].split("#")[0] for q in record(mem)[2])
-                want = sorted(known.get((fn_name, int(x)), {fn_name}))
+                want = sorted(known.get((fn_name, _arg(x)), {fn_name}))
                 check("inner-dependencies", inner == want, (sc_, inner, want))
             # forget the root call and every sub-call not in the subset, run again
             root.forget(arg)
@@ -347,7 +361,7 @@ def graphs(g: int, store: int, premem: int, root_batch: bool):
                     kept += 1
                     continue
                 fn_name, x = sc_.split(":")
-                getattr(prog, fn_name).forget(int(x))
+                getattr(prog, fn_name).forget(_arg(x))
             if kept:
                 cover("some-subcalls-memoized-before")
             if kept == len(subcalls):
@@ -358,11 +372,11 @@ def graphs(g: int, store: int, premem: int, root_batch: bool):
             check("dependencies-independent-of-what-was-memoized", warm[2] == cold[2], (warm[2], cold[2]))
             for sc_ in subcalls:
                 fn_name, x = sc_.split(":")
-                mem = getattr(prog, fn_name).memento(int(x))
+                mem = getattr(prog, fn_name).memento(_arg(x))
                 if mem is None:
                     continue  # forgotten, and not recomputed because its caller was served from the store
                 inner = sorted(q.split(":")[-1].split("#")[0] for q in record(mem)[2])
-                want = sorted(known.get((fn_name, int(x)), {fn_name}))
+                want = sorted(known.get((fn_name, _arg(x)), {fn_name}))
                 check("inner-dependencies-after-rerun", inner == want, (sc_, inner, want))
         finally:
             prog.close()
